@@ -32,6 +32,7 @@ def run_ops(harness_dir, lines, workdir, tag, exe="harness_main", timeout=1800, 
     if env:
         e.update(env)
     attempt = 0
+    hangs = 0
     while start < len(lines):
         attempt += 1
         f = os.path.join(workdir, f"{tag}.ops.{attempt}.txt")
@@ -70,8 +71,16 @@ def run_ops(harness_dir, lines, workdir, tag, exe="harness_main", timeout=1800, 
                 break
         if not rep:
             rep = (err.strip().split("\n") or [""])[-1][:300]
+        if rc == -14 and not rep.strip():
+            rep = "the operation did not finish within the per-line time limit (SIGALRM)"
         outs.append(f"CRASH {kind} {rep}")
         start = len(outs)
+        if rc in (-999, -14):
+            hangs += 1
+            if hangs >= 4:
+                # several operations in a row that never finish: do not wait for every remaining line
+                outs.extend(["CRASH skipped after repeated timeouts in this batch"] * (len(lines) - len(outs)))
+                break
         if attempt > 200:
             outs.extend(["CRASH too-many-crashes"] * (len(lines) - len(outs)))
             break
